@@ -40,7 +40,7 @@ def fresh_lexer_locals(body):
     return out
 
 
-def accesses(body):
+def accesses(body, skip_inlined_from=None):
     """(field, mode, span) for every syntactic access of a Lexer field in non-cleanup code.
     modes: write | mutborrow | read | move | drop"""
     out = []
@@ -64,6 +64,8 @@ def accesses(body):
     for bb in body["mir"]["blocks"]:
         if bb["cleanup"]:
             continue
+        if skip_inlined_from and str(bb.get("inl", "")).startswith(skip_inlined_from):
+            continue        # code inlined from the runtime is judged by the runtime's own table
         span = bb.get("span")
         for st in bb["st"]:
             if "lhs" not in st:
@@ -132,6 +134,10 @@ WHO_GENERATED = {
 }
 
 
+SPEC_METHODS = ("backtrack", "match_", "match_loc", "next", "peek", "reset_accepting_state", "reset_match",
+                "set_accepting_state", "state")
+
+
 def allowed_mode(mode, allowed):
     """A method that may write a field may also hand out `&mut field` to a helper (the helper's own
     accesses are attributed to the method separately); nothing else is implied."""
@@ -173,6 +179,13 @@ def check_who_runtime(ctx, prog):
             elif is_method and short in CT:
                 ok = False      # constructors build the struct with an aggregate, no field access
                 why = "constructors do not access fields of an existing lexer"
+            elif is_method and short not in SPEC_METHODS and short not in CT + ("new", "new_from_iter"):
+                # a method outside the specification table: template code that was moved from the
+                # generated `next` into the runtime (generated code that calls it is analysed with it
+                # inlined); it may touch what the generated `next` may touch
+                ok = mode == "read" or mode in WHO_GENERATED["next"].get(f, ())
+                why = "a runtime method without a contract may only do what the generated next() may do: %s" % (
+                    {k: sorted(v) for k, v in WHO_GENERATED["next"].items()},)
             else:
                 ok = is_method and allowed_mode(mode, WHO_RUNTIME.get(f, {}).get(short, ()))
                 why = "allowed accessors of `%s`: %s" % (
@@ -202,7 +215,7 @@ def check_who_runtime(ctx, prog):
 def check_who_generated(ctx, prog, exp):
     n = 0
     for p, b in exp.bodies.items():
-        acc = accesses(b)
+        acc = accesses(b, skip_inlined_from="lexgen_util::")
         if not acc:
             continue
         if b is exp.next_body:
@@ -276,6 +289,17 @@ def check_ctor_delegation(ctx, prog, exp):
                 ok = (c[1] == RT + m and c[2] == tuple(("param", i + 1) for i in range(argc))
                       and r[0] == "adt" and len(r[4]) == 1
                       and r[4][0][1] == ("call", c[1], c[2], c[3]))
+            elif len(calls) == 2 and m in ("new", "new_from_iter"):
+                # `new(x)` spelled `new_with_state(x, Default::default())`: what the runtime's own `new`
+                # does (R-SUM's constructor rows)
+                d = [c for c in calls if str(c[1]).endswith("Default>::default") or str(c[1]).endswith("::default")]
+                w = [c for c in calls if c[1] == RT + m + "_with_state"]
+                if len(d) == 1 and len(w) == 1 and not d[0][2]:
+                    c = w[0]
+                    ok = (len(c[2]) == 2 and c[2][0] == ("param", 1)
+                          and c[2][1] == ("call", d[0][1], d[0][2], d[0][3])
+                          and r[0] == "adt" and len(r[4]) == 1
+                          and r[4][0][1] == ("call", c[1], c[2], c[3]))
             detail = {"calls": [str(c[1]) for c in calls], "ret": repr(r)[:200]}
         ctx.ob("R-CTOR", "%s: %s only wraps lexgen_util::Lexer::%s applied to its own arguments" % (
             exp.id, m, m), ok, key="R-CTOR:%s:%s" % (exp.id, m), where=exp.span, detail=detail)
